@@ -106,3 +106,14 @@ ASSUMPTIONS = [
 TRUSTED = ["extraction rewrite tables of units/C18.py (incl. the lambda -> loop rendering)", "stubs in units/C18/*.c (FN, clock, c1/c2, hasExactSolution, FMUL, FDIV, do_terminate)", "CBMC 6.11 (DFCC, minisat/kissat)"]
 NOT_COVERED = ["periodic evaluation thread: 'no later than one period afterwards' (concurrency)", "IterationTerminationCondition -> PlannerTerminationCondition conversion operator (std::function plumbing)",
                "CostConvergence constructor's callback registration"]
+
+C18_CPPS = ["src/ompl/base/src/PlannerTerminationCondition.cpp", "src/ompl/base/terminationconditions/src/IterationTerminationCondition.cpp",
+            "src/ompl/base/terminationconditions/src/CostConvergenceTerminationCondition.cpp"]
+NATIVE = [dict(name="c18_native_oracle", driver="native/c18_native.cpp", link_ompl=True, unit_cpps=C18_CPPS, args=lambda tier, seed: ["all", seed], timeout=300)]
+
+
+def replay(ur, scratch, seed):
+    from vf import native as N, cbmc as C
+    exe = N.build_driver("native/c18_native.cpp", scratch, link_ompl=True, unit_cpps=C18_CPPS)
+    r = C.run_cmd([exe, "all", str(seed)], 300, env=N.run_env())
+    return dict(found=(r["rc"] == 1), driver="native/c18_native.cpp", args=["all", seed], link_ompl=True, unit_cpps=C18_CPPS, output=r["out"][-2500:])
